@@ -70,6 +70,9 @@ func genX(r *core.Rand, pr Profile, sec bool, mayClose bool) string {
 	kv = append(kv, "rc="+b01(rc))
 	hs := r.Range(1, 9999)
 	kv = append(kv, fmt.Sprintf("hs=%d", hs))
+	if pr.Rich && r.Chance(1, 2) {
+		kv = append(kv, fmt.Sprintf("pk=%d", r.Range(1, 5)))
+	}
 	if pr.Rich {
 		kv = append(kv, fmt.Sprintf("hdr=%d", r.Intn(13)), fmt.Sprintf("ohdr=%d", r.Intn(9)))
 	} else {
@@ -193,7 +196,7 @@ func GenCase(r *core.Rand, pr Profile) []string {
 	tunnel := pr.Tunnels && r.Chance(2, 3)
 	mode := "seq"
 	if !tunnel {
-		mode = r.Pick("seq", "seq", "pipe", "pipe", "dribble")
+		mode = r.Pick("seq", "seq", "pipe", "pipe", "dribble", "half")
 	}
 	if !tunnel {
 		listener, rt := "plain", ""
@@ -209,7 +212,7 @@ func GenCase(r *core.Rand, pr Profile) []string {
 		}
 		ops = append(ops, "conn mode="+mode+" listener="+listener+" shutdown=0"+rt)
 		for i := 0; i < n; i++ {
-			ops = append(ops, genX(r, pr, listener == "tls", mode != "pipe" || i == n-1))
+			ops = append(ops, genX(r, pr, listener == "tls", (mode != "pipe" && mode != "half") || i == n-1))
 		}
 		ops = append(ops, "end")
 		return ops
